@@ -137,3 +137,17 @@ Theorem C15_emitted_sizes : forall n ir, In (n, ir) nodes -> nd_isgroup n = fals
   ni_list ir = Some (8 * nd_dwc n, nd_pc n) /\ ni_typeid ir = Some (nd_id n).
 Proof. exact emitted_sizes. Qed.
 Print Assumptions C15_emitted_sizes.
+
+(* generated type names: whatever qualified Go type / constructor an emitted getter, setter, NewX or
+   client method signature names resolves (through the emitted import block) to the package and
+   type whose X_TypeID is the schema's type id -- in particular the right Foo_List wrapper *)
+Theorem C15_emitted_typerefs : forall t ids x, In (t, ids) typerefs -> In x ids -> x = t.
+Proof. exact emitted_typerefs. Qed.
+Print Assumptions C15_emitted_typerefs.
+
+(* pointer defaults: the getter's StructDefault/ListDefault/Default argument and the pipelined accessor
+   X_Future.F() = p.Future.Field(slot, default) name the field's own pointer slot and exactly the bytes
+   of the field's own default (nil when it has none) *)
+Theorem C15_emitted_defaults : forall k want got, In (k, (want, got)) defrefs -> got = want.
+Proof. exact emitted_defrefs. Qed.
+Print Assumptions C15_emitted_defaults.
